@@ -68,13 +68,25 @@ def sweep(ctx):
             else:
                 v = tg.real_verdict(l)
                 what = "rejected (%s line %s) although the base program is accepted" % (v[1] if len(v) > 1 else v[0], v[3] if len(v) > 3 else "?")
-                infos = [sites[i] for i in sub]
-                viol.append((classify_variant(infos, v), "acceptance-differs", sub, tg.render(t, erase=sub), tg.render(t), what))
+                src = tg.render(t, erase=sub)
+                viol.append((classify_variant(src, v), "acceptance-differs", sub, src, tg.render(t), what))
     dist = {"bases": len(bs), "sites_per_program_histogram": dict(nsites), "site_kinds": dict(kinds), "stats": dict(stats)}
     return viol, dist
 
 
-def classify_variant(infos, v):
+def classify_variant(src, v):
+    """known class: a call of a function-typed field of a parameter whose annotation was erased
+    (`p.update()` with p un-annotated: "Unknown types cannot be called")"""
+    import re
+    if len(v) > 3 and v[1] == "Type:Violating":
+        lines = src.split("\n")
+        if 0 < v[3] <= len(lines):
+            m = re.search(r"\b(p\d+)\.(f\d+)\(", lines[v[3] - 1])
+            if m:
+                pname = m.group(1)
+                # the parameter is declared without annotation in this variant
+                if re.search(r"\b%s\b(?!:)\s*(,|->|do)" % pname, src):
+                    return "C08-call-through-unknown-field"
     return None
 
 
